@@ -5,13 +5,13 @@ import trace
 from props.base import PropBase
 
 KINDS = ['wrong_sn', 'unexpected_cf', 'unexpected_fc', 'interrupt_sf', 'interrupt_ff', 'too_long', 'undecodable', 'truncated',
-         'missing_escape', 'invalid_rxdl', 'changing_rxdl']
+         'missing_escape', 'invalid_rxdl', 'changing_rxdl', 'late_cf']
 EXPECT = {
     'wrong_sn': 'WrongSequenceNumberError', 'unexpected_cf': 'UnexpectedConsecutiveFrameError',
     'unexpected_fc': 'UnexpectedFlowControlError', 'interrupt_sf': 'ReceptionInterruptedWithSingleFrameError',
     'interrupt_ff': 'ReceptionInterruptedWithFirstFrameError', 'too_long': 'FrameTooLongError', 'undecodable': 'InvalidCanDataError',
     'truncated': 'InvalidCanDataError', 'missing_escape': 'MissingEscapeSequenceError', 'invalid_rxdl': 'InvalidCanFdFirstFrameRXDL',
-    'changing_rxdl': 'ChangingInvalidRXDLError'}
+    'changing_rxdl': 'ChangingInvalidRXDLError', 'late_cf': 'ConsecutiveFrameTimeoutError'}
 # does the interrupted message M1 survive the anomaly?
 SURVIVES = {'unexpected_fc': True, 'missing_escape': True, 'changing_rxdl': True}
 
@@ -106,7 +106,28 @@ class C06(PropBase):
                 bad = pre + bytes([0x10, 40]) + bytes(tot - 2 - L)
             elif kind == 'changing_rxdl':
                 bad = pre + bytes([f1[pos][L]]) + bytes(8 - 1 - L)
-            if kind == 'unexpected_cf':
+            elif kind == 'late_cf':
+                bad = f1[pos]          # the right frame, too late: the reception it belongs to is gone
+            if kind == 'late_cf':
+                # "time gaps beyond the timeouts": the frame is handed over by a read that started before the deadline and returned after
+                # it (blocking rxfn), or simply shows up late
+                T = rng.choice([5, 100, 1000])
+                params['rx_consecutive_frame_timeout'] = T
+                late = T * 1000000 + rng.choice([1000, 1000000, T * 500000])
+                for fr in f1[:pos]:
+                    put(fr)
+                if rng.random() < 0.5:
+                    ops.append({'op': 'frame', 'i': 0, 'id': fid, 'ext': ext, 'data': bad, 'dt': late})
+                else:
+                    ops.append({'op': 'tick', 'dt': late})
+                    ops.append({'op': 'frame', 'i': 0, 'id': fid, 'ext': ext, 'data': bad})
+                ops.append({'op': 'process', 'i': 0})
+                inj_at = len([o for o in ops if o['op'] == 'frame']) - 1
+                delivered_m1 = False
+                if rng.random() < 0.5:
+                    for fr in f1[pos + 1:]:
+                        put(fr)
+            elif kind == 'unexpected_cf':
                 put(bad)
                 inj_at = len([o for o in ops if o['op'] == 'frame']) - 1
                 for fr in f1:
